@@ -11,7 +11,11 @@ def _raw(ctx, args, kwargs):
     obj, name = args
     if not isinstance(obj, SObj):
         return S.raw(obj, name)
-    if obj.idict is not None and name in obj.idict:
+    from .seqs import SymDict
+    if isinstance(obj.idict, SymDict):
+        if name in obj.idict.known:
+            return obj.idict.known[name]
+    elif obj.idict is not None and name in obj.idict:
         return obj.idict[name]
     if "_" + name in obj.slots:
         return obj.slots["_" + name]
